@@ -648,7 +648,7 @@ pub fn ts_prolog() -> String {
   collector.push_str("const ");
   FunctionName::VEC_EQ.write_encoded(&mut collector, heap, table);
   collector.push_str(
-    " = (a: _Vec, b: _Vec): number => { if (a === b) return 1; if (a.length !== b.length) return 0; for (let i = 0; i < a.length; i++) { if (a[i] !== b[i]) return 0; } return 1; };\n",
+    " = (a: _Vec, b: _Vec): number => { if (a === b) return 1; if (a.length !== b.length) return 0; for (let i = 0; i < a.length; i++) { if (a[i] != b[i]) return 0; } return 1; };\n",
   );
 
   collector
